@@ -295,3 +295,32 @@ pub fn family_h(maxdepth: usize) -> Vec<String> {
     }
     out
 }
+
+/// family I: capture pressure inside the simplifiers - a defined variable whose defining term
+/// mentions V and the first fresh-name candidates of V (V1, V2), over a nested quantifier that
+/// re-binds some of them: substituting the definition must rename the inner binder to a name that
+/// is fresh for the term as well
+pub fn family_i() -> Vec<String> {
+    let mut out = vec![];
+    let int_terms = ["Y$i + Y1$i", "Y1$i + Y$i", "Y$i * Y1$i", "Y$i + Y2$i", "Y$i + Y1$i + Y2$i", "Y$i", "Y1$i - Y$i"];
+    let gen_terms = ["Y", "Y1", "Y$i + Y1$i", "Y$i"];
+    let inner_vars_i = ["Y$i", "Y1$i", "Y$i Y1$i", "Y2$i", "Y"];
+    let inner_vars_g = ["Y", "Y1", "Y Y1", "Y$i", "Y$i Y1$i"];
+    let bodies = ["q(X) and q(V)", "q(X) or not q(V)", "q(X) -> q(V)", "X = V and q(V)"];
+    for (x, terms, ivs) in [("X$i", &int_terms[..], &inner_vars_i[..]), ("X", &gen_terms[..], &inner_vars_g[..])] {
+        for t in terms {
+            for iv in ivs {
+                let first = iv.split(' ').next().unwrap();
+                for b in bodies {
+                    let body = b.replace('X', x).replace('V', first);
+                    for iq in ["exists", "forall"] {
+                        out.push(format!("exists {x} ({x} = {t} and {iq} {iv} ({body}))"));
+                        out.push(format!("forall {x} ({x} = {t} -> {iq} {iv} ({body}))"));
+                        out.push(format!("exists {x} ({iq} {iv} ({body}) and {t} = {x})"));
+                    }
+                }
+            }
+        }
+    }
+    out
+}
